@@ -43,6 +43,8 @@ def run(chk):
     for _ in range(160 if thorough else 40):
         case = case_for_c04(rng)
         script = A.random_script(rng, case)
+        if rng.random() < 0.25:    # a functional-style Problem whose Calculate returns a NEW FunctionValue
+            case['new_holder'] = True
         if rng.random() < 0.3:     # local refinement, possibly repeated
             case['refine'] = rng.random() < 0.5
             script = script + [('refine', rng.choice([3, 10, 40]))] + ([('refine', rng.choice([2, 4]))] if rng.random() < 0.5 else [])
@@ -55,6 +57,22 @@ def run(chk):
             found += chk.violation('best-not-minimum', fails[0], {'kind': 'callbacks', 'case': case, 'script': [list(x) for x in script]})
             if found > 2:
                 break
+    # repeated refinement with a smaller budget the second time; Solve with refinement followed by another refinement
+    for i in range(12 if thorough else 6):
+        n = 2 if i % 3 else 3
+        lo, hi = H.random_box(rng, n, nice=True)
+        case = {'n': n, 'lo': lo, 'hi': hi, 'r': rng.choice([2.5, 3.5]), 'eps': 0.01, 'iters': 80, 'density': None,
+                'objective': {'kind': 'quad', 'c': [round(rng.uniform(a + 0.2 * (b - a), b - 0.2 * (b - a)), 3) for a, b in zip(lo, hi)]}}
+        if i % 2:
+            script = [('iter', 60), ('refine', 40), ('refine', rng.choice([3, 4]))]
+        else:
+            case['refine'] = True
+            script = [('solve',), ('refine', 3)]
+        fails = O.guarded(lambda c: callbacks_check(c, script), case)
+        chk.evaluations += 1
+        chk.nontrivial += 1
+        if fails:
+            found += chk.violation('best-not-minimum', fails[0], {'kind': 'callbacks', 'case': case, 'script': [list(x) for x in script]})
     S.report_corr(chk, bad, errors, found)
 
 
